@@ -10,6 +10,7 @@ use serde_json::{json, Value};
 pub mod adjlist;
 pub mod adjsut;
 pub mod graphmap;
+pub mod matrix;
 pub mod visit;
 pub mod unionfind;
 
@@ -152,6 +153,8 @@ pub fn get(name: &str) -> Option<Box<dyn Engine>> {
         "graph-visit" => Box::new(H(adjlist::AdjEngine { stable: false, mode: adjlist::Mode::Visit })),
         "stable-visit" => Box::new(H(adjlist::AdjEngine { stable: true, mode: adjlist::Mode::Visit })),
         "graphmap" => Box::new(H(graphmap::GraphMapEngine { visit: false })),
+        "matrix" => Box::new(H(matrix::MatrixEngine { visit: false })),
+        "matrix-visit" => Box::new(H(matrix::MatrixEngine { visit: true })),
         "graphmap-visit" => Box::new(H(graphmap::GraphMapEngine { visit: true })),
         _ => return None,
     })
